@@ -241,6 +241,55 @@ fn accept_nonpow2<B: Fld, E: FieldElement<BaseField = B>, H: ElementHasher<BaseF
     st.sample("nonpow2", || desc("sample", String::new()));
 }
 
+/// layout of layer openings: a prover written out by hand commits every layer in the partitioned
+/// layout (2^k partitions, row r at leaf index(r)); its honest proofs for low-degree polynomials must
+/// be accepted exactly like the library prover's, for every partition count the layers can hold
+fn accept_partitioned<B: Fld, E: FieldElement<BaseField = B>, H: ElementHasher<BaseField = B>>(rng: &mut Rng, st: &mut State, i: u64, tag: &str) {
+    let Some(pr) = gen_params(rng, i + 2) else {
+        return;
+    };
+    let n = 1usize << pr.log_n;
+    let domain = n * pr.blowup;
+    let opts = FriOptions::new(pr.blowup, pr.fold, pr.rem);
+    let layers = opts.num_fri_layers(domain);
+    if layers == 0 {
+        st.count("partitioned.no_layers");
+        return;
+    }
+    let last_rows = domain / pr.fold.pow(layers as u32);
+    let max_log_parts = last_rows.ilog2().min(3) as u8;
+    let log_parts = if max_log_parts == 0 { 0 } else { rng.range(0, max_log_parts as usize) as u8 };
+    let (p, pkind) = poly::<B, E>(rng, n);
+    let evals = frih::evaluate::<B, E>(&p, domain);
+    let (pos, qkind) = positions(rng, domain, pr.fold);
+    let desc = |what: &str, err: String| {
+        J::obj(vec![("config", J::s(tag)), ("blowup", J::i(pr.blowup)), ("folding", J::i(pr.fold)), ("remainder_max_degree", J::i(pr.rem)), ("poly_size", J::i(n)), ("domain", J::i(domain)), ("layers", J::i(layers)), ("partitions", J::i(1usize << log_parts)), ("polynomial", J::s(pkind)), ("positions", J::s(qkind)), ("what", J::s(what)), ("error", J::s(err))])
+    };
+    let Some(m) = frih::manual_prove::<B, E, H>(&evals, &opts, &pos, log_parts, frih::RowCoord::DomainPosition) else {
+        st.count("partitioned.manual_prover_declined");
+        return;
+    };
+    let queried: Vec<E> = pos.iter().map(|&p| evals[p]).collect();
+    match catch(|| frih::verify::<B, E, H>(m.proof.clone(), m.commitments.clone(), &queried, &pos, n - 1, domain, &opts)) {
+        Ok(Ok(())) => {},
+        Ok(Err(e)) => st.violation(format!("honest-proof-rejected:partitions-{}", if log_parts == 0 { "1(hand-written prover)" } else { ">1" }), desc("direct", e)),
+        Err(pi) => st.violation(format!("verifier-panic:{}", pi.sig), desc("direct", pi.msg)),
+    }
+    // with one partition the hand-written prover must reproduce the library prover byte for byte
+    if log_parts == 0 {
+        let mut prover = FriProver::<B, E, frih::Chan<E, H>, H>::new(opts.clone());
+        let inst = frih::prove::<B, E, H>(&mut prover, evals.clone(), &opts, pos.len().max(1).min(domain - 1), Some(pos.clone()));
+        if inst.proof != m.proof || inst.commitments != m.commitments {
+            st.violation("hand-written-prover-differs-from-library-prover", desc("comparison", String::new()));
+        }
+        st.count("partitioned.one_partition_equals_library_prover");
+    }
+    st.evals += 1;
+    st.count(&format!("partitioned.log_parts_{log_parts}"));
+    st.distinct.insert(wfv::fnv(format!("part{tag}{pr:?}{log_parts}{pkind}{qkind}{i}").as_bytes()));
+    st.sample("partitioned", || desc("sample", String::new()));
+}
+
 /// folding identity in the coefficient domain
 fn drp<B: Fld, E: FieldElement<BaseField = B>, const N: usize>(rng: &mut Rng, st: &mut State) {
     let log_d = rng.range((N.ilog2() + 1) as usize, 8);
@@ -325,6 +374,7 @@ fn position_folding(rng: &mut Rng, st: &mut State) {
 fn drive<B: Fld, E: FieldElement<BaseField = B>, H: ElementHasher<BaseField = B>>(run: &Run, tag: &str, n: u64) {
     run.par(tag, n, |i, rng, st| accept::<B, E, H>(rng, st, i, tag));
     run.par(&format!("{tag}/bound-not-2^k-1"), n / 2, |i, rng, st| accept_nonpow2::<B, E, H>(rng, st, i, tag));
+    run.par(&format!("{tag}/partitioned"), n / 2, |i, rng, st| accept_partitioned::<B, E, H>(rng, st, i, tag));
 }
 
 fn main() {
@@ -362,12 +412,12 @@ fn main() {
         position_folding(rng, st);
         st.distinct.insert(wfv::fnv(format!("fp{i}").as_bytes()));
     });
-    let mut require = vec![("degree_bound_0_or_1".to_string(), 20), ("fold_positions.cases".to_string(), 1000), ("nonpow2.accepted_or_checked".to_string(), 100), ("prover_reused_on_other_domain_size".to_string(), 100), ("nonpow2.layers_1".to_string(), 10), ("nonpow2.layers_2".to_string(), 10)];
+    let mut require = vec![("degree_bound_0_or_1".to_string(), 20), ("fold_positions.cases".to_string(), 1000), ("nonpow2.accepted_or_checked".to_string(), 100), ("prover_reused_on_other_domain_size".to_string(), 100), ("partitioned.log_parts_1".to_string(), 50), ("partitioned.log_parts_2".to_string(), 20), ("partitioned.one_partition_equals_library_prover".to_string(), 50), ("nonpow2.layers_1".to_string(), 10), ("nonpow2.layers_2".to_string(), 10)];
     for k in ["poly.degree-0", "poly.degree-1", "poly.degree-bound-minus-1", "poly.degree-exactly-bound", "poly.random", "positions.one-position", "positions.255-or-max-positions-with-duplicates", "positions.colliding-after-folding", "positions.repeated-position", "folding.2", "folding.4", "folding.8", "folding.16", "accepted_or_checked.layers_0", "accepted_or_checked.layers_1", "accepted_or_checked.layers_3"] {
         require.push((k.to_string(), 10));
     }
     run.finish(Finish {
-        rule: "instances: blowup 2..128 x folding 2/4/8/16 x remainder max degree 0..255 x polynomial sizes 2^0..2^10 (degree bounds 0 and 1 forced into every 9th case) with domain 8..2^13 and a well-formed schedule; polynomials of degree 0, 1, bound-1, exactly bound, zero, random; position lists: single, up to 255 with duplicates, colliding after folding, repeated, random; prover instance reused for a second proof (in half of the cases for a polynomial over a domain of another size); degree bounds m-1 with m a multiple of folding^layers strictly between n/2 and n (not of the form 2^k-1); verification directly and after FriProof byte round trip; 8 field/extension/hasher configurations. Folding identity: apply_drp<2/4/8/16> on direct evaluations vs g(y)=sum_k alpha^k f_k(y) evaluated on the folded coset; fold_positions / map_positions_to_indexes / num_fri_layers vs closed forms. distinct = distinct generated instance".into(),
+        rule: "instances: blowup 2..128 x folding 2/4/8/16 x remainder max degree 0..255 x polynomial sizes 2^0..2^10 (degree bounds 0 and 1 forced into every 9th case) with domain 8..2^13 and a well-formed schedule; polynomials of degree 0, 1, bound-1, exactly bound, zero, random; position lists: single, up to 255 with duplicates, colliding after folding, repeated, random; prover instance reused for a second proof (in half of the cases for a polynomial over a domain of another size); degree bounds m-1 with m a multiple of folding^layers strictly between n/2 and n (not of the form 2^k-1); verification directly and after FriProof byte round trip; a hand-written prover committing every layer in the partitioned layout (1, 2, 4, 8 partitions; with one partition it must reproduce the library prover byte for byte) whose honest proofs must be accepted; 8 field/extension/hasher configurations. Folding identity: apply_drp<2/4/8/16> on direct evaluations vs g(y)=sum_k alpha^k f_k(y) evaluated on the folded coset; fold_positions / map_positions_to_indexes / num_fri_layers vs closed forms. distinct = distinct generated instance".into(),
         assumptions: vec!["evaluations of the test polynomials are produced with the library FFT (C09); the folding identity uses direct evaluation instead".into(), "ill-formed schedules (a folded layer with fewer than 2 rows, or no remainder coefficient) are not generated".into()],
         exhaustive: false,
         require,
